@@ -113,6 +113,26 @@ func (*BaseNode).Attributes
   ensures sameslice(result, n.attributes)
   modifies nothing
 
+// ---- attributes as a set of names (C15: "every heading ... carries an id") ----
+macro hasAttrKey(b, key) = exists i int :: 0 <= i && i < len(b.attributes) && strkey(b.attributes[i].Name) == key
+func (*BaseNode).SetAttribute
+  ensures [set] hasAttrKey(n, strkey(name))
+  modifies n.attributes, contents(n.attributes)
+  loop 0 inv len(n.attributes) == old(len(n.attributes))
+func (*BaseNode).Attribute
+  ensures [found] result1 <==> hasAttrKey(n, strkey(name))
+  modifies nothing
+  loop 0 inv forall k int :: (0 <= k && k <= rangeindex) ==> strkey(n.attributes[k].Name) != strkey(name)
+func (*BaseNode).AttributeString
+  ensures [found] result1 <==> hasAttrKey(n, strkey(s))
+  modifies nothing
+iface ast.Node.AttributeString
+  ensures result1 <==> hasAttrKey(bn(recv), strkey(name))
+  modifies nothing
+iface ast.Node.SetAttribute
+  ensures hasAttrKey(bn(recv), strkey(name))
+  modifies bn(recv).attributes, contents(bn(recv).attributes)
+
 // ---- mutators ----
 // removal of v from its parent q (if any): all later children of q move up by one
 macro rmLen(p, v)    = ((par(v) != nil && p == par(v)) ? klen(p) - 1 : klen(p))
